@@ -55,6 +55,7 @@ assert rc == 0, out
 try:
     t0 = time.time()
     env['VERIF_REPO'] = scr
+    env['VERIF_EVIDENCE_DIR'] = '/tmp/seedverify-evidence'
     rcq, outq = sh('./check %s --tier quick' % pid, VERIF, timeout=7200)
     meta['check'] = dict(cmd='git -C /repo apply patch.diff && ./check %s --tier quick' % pid, rc=rcq, wall_s=round(time.time() - t0, 1),
                          lines=[l for l in outq.split('\n') if l.startswith(('VIOLATION', 'UNDECIDED', 'KNOWN', pid))])
